@@ -612,3 +612,11 @@ Proof.
   - unfold run_cont, call_fails. rewrite Eo. unfold op_done, op_done_k. eexists _, _, _. split; [reflexivity|]. cbn. split; auto.
     split; auto. discriminate.
 Qed.
+
+(* a state produced by running a schedule is reachable (no computation involved) *)
+Lemma reachable_run P (s : list nat) (c0 : cfg gst lst) : reachable (step P) c0 (fst (run (step P) s c0)).
+Proof. exists s. reflexivity. Qed.
+
+Lemma reachable_run_pair P (s : list nat) (c0 : cfg gst lst) :
+  reachable (step P) c0 (fst (fst (run (step P) s c0)), snd (fst (run (step P) s c0))).
+Proof. rewrite <- surjective_pairing. apply reachable_run. Qed.
